@@ -73,10 +73,11 @@ def upd {α : Type} (f : Key → α) (k : Key) (v : α) : Key → α := fun k' =
 structure State where
   win  : Key → Option Window      -- Store.byName[name][peer]
   cnt  : Key → Nat                -- Checker.failedPeers[peer][name] (0 = no entry)
+  af   : Key → Nat                -- Checker.alertedFor[peer][name]: stamp of the metric `cnt` refers to (0 = no entry)
   keys : List Key                 -- every (name, peer) that ever had a window, in order of first arrival
   ps   : Peerset
 
-def State.init (ps : Peerset) : State := { win := fun _ => none, cnt := fun _ => 0, keys := [], ps := ps }
+def State.init (ps : Peerset) : State := { win := fun _ => none, cnt := fun _ => 0, af := fun _ => 0, keys := [], ps := ps }
 
 /-- Parameters: `DefaultWindowCap`, `MaxAlertThreshold`, and the accrual oracle. -/
 structure Params where
@@ -139,14 +140,26 @@ abbrev Alert := Nat × Nat × Option Nat
 
 def Alert.key (a : Alert) : Key := (a.1, a.2.1)
 
-/-- `Checker.alert(peer, name)`: at the threshold forget the metrics and the
-    counter without alerting; below it count and alert with the latest metric. -/
+/-- `ReceivedAt` of a metric, as far as `alert` uses it: `Window.Add` stamps every arrival with
+    a fresh clock value, here the arrival's position + 1; the stub metric `alert` builds when
+    nothing is stored has `ReceivedAt = 0`, which is also what a missing map entry reads as. -/
+def stampOf : Option Metric → Nat
+  | some m => m.id + 1
+  | none => 0
+
+/-- the alert count as `alert` sees it after its "newer metric ⇒ start over" step -/
+def ecnt (s : State) (k : Key) : Nat := if s.af k = stampOf (latestOf s k) then s.cnt k else 0
+
+/-- `Checker.alert(peer, name)`: the count refers to one metric (`alertedFor` = its `ReceivedAt`);
+    for a newer latest metric it starts over. At the threshold forget the metrics, the count and
+    the stamp without alerting; below it count and alert with the latest metric. -/
 def alertK (P : Params) (acc : State × List Alert) (k : Key) : State × List Alert :=
   let s := acc.1
-  if s.cnt k ≥ P.maxA then
-    ({ s with win := upd s.win k none, cnt := upd s.cnt k 0 }, acc.2)
+  if ecnt s k ≥ P.maxA then
+    ({ s with win := upd s.win k none, cnt := upd s.cnt k 0, af := upd s.af k 0 }, acc.2)
   else
-    ({ s with cnt := upd s.cnt k (s.cnt k + 1) }, acc.2 ++ [(k.1, k.2, (latestOf s k).map (·.id))])
+    ({ s with cnt := upd s.cnt k (ecnt s k + 1), af := upd s.af k (stampOf (latestOf s k)) },
+      acc.2 ++ [(k.1, k.2, (latestOf s k).map (·.id))])
 
 /-- body of the `CheckPeers` loops for one (name, peer) -/
 def checkOneP (P : Params) (i : Nat) (acc : State × List Alert) (k : Key) : State × List Alert :=
